@@ -886,6 +886,7 @@ func ResolveBoardGroup(gid ptttype.Bid, bsortBy ptttype.BSortBy) (err error) {
 	}
 	currentBoard := parentBoard
 	currentBid := gid
+	childCount := int32(0)
 	for idxInStore := 0; idxInStore < boardCount; idxInStore++ {
 		bidInCache = Shm.Shm.BSorted[bsortBy][idxInStore]
 		bid := bidInCache.ToBid()
@@ -920,9 +921,11 @@ func ResolveBoardGroup(gid ptttype.Bid, bsortBy ptttype.BSortBy) (err error) {
 
 		currentBoard = board
 		currentBid = bid
+		childCount++
 	}
 
-	return nil
+	// as resolve_board_group in cache.c: the listing of the class walks childcount (+5) children.
+	return SetBoardChildCount(gid, childCount)
 }
 
 func setBoardFirstChild(bid ptttype.Bid, bsortBy ptttype.BSortBy, childBid ptttype.Bid) (err error) {
